@@ -21,7 +21,7 @@ RULE = ("exhaustive: every byte 1-255 except '/' alone and inside a name, every 
         "foreign .trashinfo contents; a case is non-trivial when it reaches the writer or a reader and distinct "
         "by its input bytes; world level: multi-argument trash-put runs under a clock that advances one hour per "
         "mutating call - every written info is conformant and dated when its own entry was trashed, and trash-list run on what "
-        "trash-put left shows every new entry under the path it was trashed from")
+        "trash-put left shows every new entry under the path it was trashed from; reader's zone: every day of two years at five times around the change-over hours, read back under 10 POSIX TZ rules (incl. gaps and repeated hours) by each date decoder - the reading is the text that was written")
 
 INTERESTING = [1, 9, 10, 13, 32, 33, 34, 35, 37, 38, 39, 43, 45, 46, 47 + 1, 58, 59, 61, 63, 64, 91, 92, 93, 94, 95,
                96, 123, 126, 127, 128, 0xA9, 0xBF, 0xC0, 0xC2, 0xC3, 0xE2, 0xED, 0xF0, 0xF4, 0xFF]
@@ -327,6 +327,37 @@ ZONES = [b"AEST-10AEDT,M10.1.0,M4.1.0/3", b"CET-1CEST,M3.5.0,M10.5.0/3", b"XST-1
          b"EST5EDT,M3.2.0,M11.1.0", b"IST-5:30", b"NZST-12NZDT,M9.5.0,M4.1.0/3", b"UTC0", b"ZST3ZDT,M1.1.0,M7.1.0", b"WST-8WDT,M7.1.0,M12.5.0"]
 
 
+def zone_task(task):
+    """the READER's time zone: a DeletionDate is a wall-clock reading, written as text; every reader hands back exactly the
+    reading that was written - also when it falls into an hour (or a day) that does not exist in the zone the reader
+    happens to run in (written under another zone, or by a clock that was set by hand), or exists twice.  Every day of two
+    years at four times around the usual change-over hours, in the reader's own zone set through TZ."""
+    import datetime
+    import time
+    zone = ZONES[task["i"] % len(ZONES)]
+    os.environ["TZ"] = os.fsdecode(zone)
+    time.tzset()
+    impl = Impl()
+    bad, n = [], 0
+    try:
+        day = datetime.date(2025 + task["i"] % 3, 1, 1)
+        for _ in range(730):
+            for hh, mm in ((0, 30), (1, 59), (2, 30), (3, 0), (23, 59)):
+                written = datetime.datetime(day.year, day.month, day.day, hh, mm, 7)
+                text = "[Trash Info]\nPath=/x\nDeletionDate=%s\n" % written.strftime("%Y-%m-%dT%H:%M:%S")
+                n += 1
+                got = [impl.date(text), ("date", impl.parse_deletion_date(text)), ("date", impl.maybe(text))]
+                if any(g != ("date", written) for g in got):
+                    bad.append({"zone": os.fsdecode(zone), "written": str(written), "read_back": [str(g[1]) for g in got]})
+                    break
+            if bad:
+                break
+            day += datetime.timedelta(days=1)
+    finally:
+        impl.close()
+    return {"zone": os.fsdecode(zone), "n": n, "bad": bad}
+
+
 def real_clock_world(seed, i):
     from ..runner import task_rng
     from ..worldgen import gen_put_world
@@ -370,6 +401,13 @@ def run(tier, seed):
         # time today, whatever today is - the date written is the local time of the run
         absorb(ck, "C03", run_tasks(eval_task, [{"pid": "C03w", "seed": seed, "i": -1, "cfg": cfg, "world": real_clock_world(seed, i)}
                                                   for i in range(10 if tier == "quick" else 60)]), cfg, "Model.Put")
+        for r in run_tasks(zone_task, [{"seed": seed, "i": i} for i in range(len(ZONES) if tier == "quick" else 3 * len(ZONES))]):
+            if "machinery" in r:
+                from ..lean import MachineryError
+                raise MachineryError(r["machinery"])
+            ck.case(("reader-zone", r["zone"], r["n"]), tags=["reader-zone"])
+            for b in r["bad"]:
+                ck.violation("date-read-back-is-date-written", {"oracle": "C03-reader-zone"}, b)
         ck.exhaustive = False
         ck.extra["exhaustive_subdomains"] = ["every byte 1-255 except '/' alone and inside a name",
                                              "ordered pairs of 40 interesting bytes", "64 boundary dates"]
